@@ -193,8 +193,7 @@ Definition strip_fres (fr : fres) : fres :=
 
 (* rs' answers like rs with every reserved index removed from the flag lists *)
 Definition strip_rel (rs rs' : rsrc) : Prop :=
-  (forall s, rs_code rs' s = rs_code rs s) /\ (forall l s, rs_tpl rs' l s = rs_tpl rs l s)
-  /\ (forall l s, rs_menu rs' l s = rs_menu rs l s) /\ (forall s, rs_nofunc rs' s = rs_nofunc rs s)
+  rs_code rs' = rs_code rs /\ rs_tpl rs' = rs_tpl rs /\ rs_menu rs' = rs_menu rs /\ rs_nofunc rs' = rs_nofunc rs
   /\ rs_observed rs' = rs_observed rs
   /\ (forall s, rs_func rs' s = option_map (map strip_fres) (rs_func rs s)).
 
@@ -1125,10 +1124,10 @@ Lemma run_strip : forall rs rs', strip_rel rs rs' ->
 Proof.
   intros rs rs' Hrel. induction fuel as [|fuel IH]; intros sep lang b v; [reflexivity|].
   rewrite !run_S. destruct (getf (v_st v) FLAG_TERMINATE); [reflexivity|]. cbv zeta.
-  destruct (op_split b) as [[op b1]| |]; try reflexivity.
+  destruct (op_split b) as [[op b1]| |]; [|reflexivity|reflexivity].
   assert (Hs : step_instr rs' sep (pre_lang lang (v_st v)) op b1 (pre_vm v)
              = step_instr rs sep (pre_lang lang (v_st v)) op b1 (pre_vm v)).
-  { unfold step_instr. destruct (parse_args op b1) as [[i b2]| |]; try reflexivity.
+  { unfold step_instr. destruct (parse_args op b1) as [[i b2]| |]; [|reflexivity|reflexivity].
     apply exec_instr_strip. exact Hrel. }
   rewrite Hs.
   assert (Ha : forall r, after_check (run fuel rs' sep (pre_lang lang (v_st v))) r
@@ -1143,7 +1142,246 @@ Lemma vm_render_strip : forall rs rs', strip_rel rs rs' ->
   forall fuel sep lang v, vm_render fuel rs' sep lang v = vm_render fuel rs sep lang v.
 Proof.
   intros rs rs' Hrel fuel sep lang v. pose proof Hrel as (Hc & Ht & Hm & Hn & Ho & Hf).
-  unfold vm_render. destruct (negb (getf (v_st v) FLAG_DIRTY)); [reflexivity|]. cbv zeta.
+  unfold vm_render. rewrite Ht, Hm.
+  destruct (negb (getf (v_st v) FLAG_DIRTY)); [reflexivity|]. cbv zeta.
   destruct (where_sym _) as [|x l]; [reflexivity|].
-  assert (E1 : rs_tpl rs' lang = rs_tpl rs lang) by (apply functional_extensionality_not_needed || idtac).
-Abort.
+  destruct (page_render _ _ _ _ _ _) as [r pg']. destruct r as [o|e|n]; try reflexivity.
+  destruct e; try reflexivity. rewrite (run_strip rs rs' Hrel). reflexivity.
+Qed.
+
+(* ---- the same at engine level ------------------------------------------------------------------ *)
+Definition strip_app (a : app) : app :=
+  mkApp (a_code a) (a_tpl a) (a_menu a) (map (fun p => (fst p, map strip_fres (snd p))) (a_funcs a)).
+Definition strip_cfg (c : config) : config :=
+  mkCfg (c_out c) (c_root c) (c_flagcount c) (c_cachesize c) (c_lang c) (c_sep c) (c_reset_empty c)
+        (option_map (map strip_fres) (c_first c)).
+
+Lemma alookup_map_snd : forall {V W} (g : V -> W) k (l : list (bytes * V)),
+  alookup k (map (fun p => (fst p, g (snd p))) l) = option_map g (alookup k l).
+Proof.
+  intros V W g k l. induction l as [|[k' v] l IH]; [reflexivity|]. cbn [map alookup fst snd].
+  destruct (bytes_eqb k k'); [reflexivity|exact IH].
+Qed.
+
+Lemma strip_rel_app : forall a, strip_rel (app_rsrc a) (app_rsrc (strip_app a)).
+Proof.
+  intros a. unfold strip_rel, app_rsrc, strip_app. cbn [rs_code rs_tpl rs_menu rs_nofunc rs_observed rs_func a_code a_tpl a_menu a_funcs].
+  repeat split. intros s. apply alookup_map_snd.
+Qed.
+Lemma strip_rel_first : forall script, strip_rel (first_rsrc script) (first_rsrc (map strip_fres script)).
+Proof.
+  intros script. unfold strip_rel, first_rsrc. cbn [rs_code rs_tpl rs_menu rs_nofunc rs_observed rs_func].
+  repeat split. intros s. destruct (bytes_eqb s first_sym); reflexivity.
+Qed.
+
+Lemma eng_flush_strip : forall rs rs' fuel c e, strip_rel rs rs' ->
+  eng_flush fuel rs' (strip_cfg c) e = eng_flush fuel rs c e.
+Proof.
+  intros rs rs' fuel c e Hrel. unfold eng_flush. cbn [strip_cfg c_out c_sep].
+  rewrite (vm_render_strip rs rs' Hrel). reflexivity.
+Qed.
+
+Lemma run_first_strip : forall fuel c lang e, run_first fuel (strip_cfg c) lang e = run_first fuel c lang e.
+Proof.
+  intros fuel c lang e. unfold run_first. cbn [strip_cfg c_first].
+  destruct (c_first c) as [script|]; cbn [option_map]; [|reflexivity].
+  destruct (st_down _ first_sym); try reflexivity.
+  rewrite (run_strip _ _ (strip_rel_first script)). reflexivity.
+Qed.
+
+Lemma eng_init_strip : forall rs rs' fuel c e input, strip_rel rs rs' ->
+  eng_init fuel rs' (strip_cfg c) e input = eng_init fuel rs c e input.
+Proof.
+  intros rs rs' fuel c e input Hrel. unfold eng_init.
+  rewrite (eng_flush_strip rs rs') by exact Hrel.
+  destruct (if e_execd e then _ else _) as [e1 s1]. destruct s1; try reflexivity.
+  destruct (e_initd _); [reflexivity|].
+  destruct (set_input _ _); try reflexivity.
+  rewrite run_first_strip. reflexivity.
+Qed.
+
+Lemma eng_exec_inner_strip : forall rs rs' fuel c e, strip_rel rs rs' ->
+  eng_exec_inner fuel rs' (strip_cfg c) e = eng_exec_inner fuel rs c e.
+Proof.
+  intros rs rs' fuel c e Hrel. unfold eng_exec_inner. cbn [strip_cfg c_sep].
+  destruct (s_code _); [reflexivity|]. rewrite (run_strip rs rs' Hrel). reflexivity.
+Qed.
+
+Lemma eng_exec_strip : forall rs rs' fuel c e input, strip_rel rs rs' ->
+  eng_exec fuel rs' (strip_cfg c) e input = eng_exec fuel rs c e input.
+Proof.
+  intros rs rs' fuel c e input Hrel. unfold eng_exec. rewrite (eng_init_strip rs rs') by exact Hrel.
+  destruct (eng_init fuel rs c e input) as [[e1 cont] s]. destruct s; try reflexivity.
+  destruct (negb cont); [reflexivity|].
+  change (c_reset_empty (strip_cfg c)) with (c_reset_empty c).
+  change (eng_reset_force (strip_cfg c) e1) with (eng_reset_force c e1).
+  destruct (if c_reset_empty c && (len input =? 0) then _ else _) as [e2 s2]. destruct s2; try reflexivity.
+  destruct ((0 <? len input) && negb (valid_input_b input)); [reflexivity|].
+  destruct (set_input _ _); try reflexivity. apply eng_exec_inner_strip. exact Hrel.
+Qed.
+
+(* a whole request: every reserved index an entry function (of the application or the engine's
+   first-function) asks for is ignored on every path by which a result reaches the session *)
+Lemma request_persisted_strip : forall rs rs' fuel c p input, strip_rel rs rs' ->
+  request_persisted fuel rs' (strip_cfg c) p input = request_persisted fuel rs c p input.
+Proof.
+  intros rs rs' fuel c p input Hrel. unfold request_persisted.
+  change (new_engine (strip_cfg c) (pw_store p) (pw_w p) (pw_log p)) with (new_engine c (pw_store p) (pw_w p) (pw_log p)).
+  rewrite (eng_exec_strip rs rs') by exact Hrel.
+  destruct (eng_exec fuel rs c _ input) as [[e1 cont] s].
+  destruct s; try reflexivity; rewrite (eng_flush_strip rs rs') by exact Hrel; reflexivity.
+Qed.
+Lemma request_long_strip : forall rs rs' fuel c e input, strip_rel rs rs' ->
+  request_long fuel rs' (strip_cfg c) e input = request_long fuel rs c e input.
+Proof.
+  intros rs rs' fuel c e input Hrel. unfold request_long.
+  rewrite (eng_exec_strip rs rs') by exact Hrel.
+  destruct (eng_exec fuel rs c e input) as [[e1 cont] s].
+  destruct s; try reflexivity; rewrite (eng_flush_strip rs rs') by exact Hrel; reflexivity.
+Qed.
+
+(* ---- LOAD / RELOAD / the engine's first-function: reserved flags ------------------------------- *)
+Lemma run_load_reserved : forall rs lang sym sz b v v' b' s,
+  run_load rs lang sym sz b v = (v', b', s) ->
+  forall i, i <= nonwriteable_flag_threshold ->
+    getf (v_st v') i = getf (v_st v) i \/ (i = FLAG_LOADFAIL /\ exists m, s = SErr EExternal m).
+Proof.
+  intros rs lang sym sz b v v' b' s H i Hi. unfold run_load in H.
+  destruct (cache_get (v_ca v) sym); try (injection H as <- _ _; left; reflexivity).
+  destruct (refresh rs lang sym v) as [[v1 content] s1] eqn:Hr.
+  destruct (refresh_reserved _ _ _ _ _ _ _ Hr i Hi) as [E|[-> [m ->]]].
+  - left. destruct s1; try (injection H as <- _ _; exact E).
+    destruct (cache_add (v_ca v1) sym content (w16 sz)) as [ca'|e0|]; try (injection H as <- _ _; exact E).
+    destruct e0; injection H as <- _ _; exact E.
+  - injection H as <- _ <-. right. eauto.
+Qed.
+Lemma run_reload_reserved : forall rs lang sym b v v' b' s,
+  run_reload rs lang sym b v = (v', b', s) ->
+  forall i, i <= nonwriteable_flag_threshold ->
+    getf (v_st v') i = getf (v_st v) i \/ (i = FLAG_LOADFAIL /\ exists m, s = SErr EExternal m).
+Proof.
+  intros rs lang sym b v v' b' s H i Hi. unfold run_reload in H.
+  destruct (refresh rs lang sym v) as [[v1 content] s1] eqn:Hr.
+  destruct (refresh_reserved _ _ _ _ _ _ _ Hr i Hi) as [E|[-> [m ->]]].
+  - left. destruct s1; try (injection H as <- _ _; exact E).
+    destruct (cache_update_raw (v_ca v1) sym content) as [ca' oe].
+    destruct (page_map _ _ sym); injection H as <- _ _; exact E.
+  - injection H as <- _ <-. right. eauto.
+Qed.
+
+Lemma run_first_rsv : forall fuel c lang e e' r s,
+  run_first fuel c lang e = (e', r, s) ->
+  rsv_step true (first_rsrc (match c_first c with Some sc => sc | None => [] end)) (v_st (e_v e)) (v_st (e_v e')).
+Proof.
+  intros fuel c lang e e' r s H. unfold run_first in H.
+  destruct (c_first c) as [script|]; [|injection H as <- _ _; apply rsv_refl].
+  destruct (st_down (v_st (e_v e)) first_sym) as [st1| |] eqn:Hd; try (injection H as <- _ _; apply rsv_refl).
+  destruct (run fuel (first_rsrc script) [] lang first_code _) as [[v2 b] s2] eqn:Hrun.
+  apply run_rsv in Hrun. cbn [v_st] in Hrun.
+  destruct (match s2 with SOk => _ | _ => _ end) as [[r0 s0] take].
+  destruct (if take then cache_last (v_ca v2) else (e_exit e, v_ca v2)) as [ex ca2].
+  injection H as <- _ _. cbn [e_v v_st].
+  eapply rsv_trans; [apply rsv_sbp; eapply st_down_sbp; exact Hd|].
+  eapply rsv_trans; [exact Hrun|].
+  eapply rsv_trans; [apply rsv_resetf; auto 6|].
+  eapply rsv_trans; [apply (rsv_resetf true _ _ FLAG_TERMINATE); do 4 right; reflexivity|].
+  destruct (st_up _) as [[sy st']| |] eqn:Hu; [|apply rsv_refl|apply rsv_refl].
+  apply rsv_sbp. eapply st_up_sbp. exact Hu.
+Qed.
+
+(* ======================================================================================== *)
+(* 8. persisted operation without an entry function: what Exec runs                           *)
+(* ======================================================================================== *)
+(* the input passes the engine's checks (not refused_b of EngineMon) *)
+Definition accepted_b (i : bytes) : bool := (len i <=? INPUT_LIMIT) && ((len i =? 0) || valid_input_b i).
+(* ResetOnEmptyInput applies *)
+Definition reset_req (c : config) (i : bytes) : bool := c_reset_empty c && (len i =? 0).
+(* no pending code but a position, and not terminated: init unwinds first (repair of K-C08-restart) *)
+Definition stale (st : state) : bool :=
+  match s_code st, s_path st with [], _ :: _ => negb (getf st FLAG_TERMINATE) | _, _ => false end.
+
+Definition prep_code (c : config) (st : state) : bytes :=
+  match s_code st with [] => encode (IMove (cfg_root c)) | x => x end.
+Definition prep_state (c : config) (st : state) (input : bytes) : state :=
+  set_input_raw (set_code st (prep_code c st)) (Some input).
+Definition prep_engine (c : config) (st : state) (ca : cache) (w : list (bytes * N)) (lg : list ev) (input : bytes) : engine :=
+  mkEng (mkVm (prep_state c st input) ca (new_vm_page (c_out c) (c_sep c)) w lg false) true [] false false.
+
+Lemma set_input_accepted : forall st input, accepted_b input = true ->
+  set_input st (Some input) = Ok (set_input_raw st (Some input)).
+Proof.
+  intros st input H. unfold accepted_b in H. apply andb_prop in H as [H _]. unfold set_input.
+  assert (E : INPUT_LIMIT <? len input = false) by lia. rewrite E. reflexivity.
+Qed.
+Lemma accepted_valid : forall input, accepted_b input = true -> (0 <? len input) && negb (valid_input_b input) = false.
+Proof.
+  intros input H. unfold accepted_b in H. apply andb_prop in H as [_ H]. apply orb_prop in H as [H|H].
+  - assert (E : 0 <? len input = false) by lia. rewrite E. reflexivity.
+  - rewrite H. apply andb_false_r.
+Qed.
+
+Lemma encode_move_cons : forall t, exists a b r, encode (IMove t) = a :: b :: r.
+Proof. intros t. apply encode_shape. Qed.
+
+Lemma eng_exec_prepared : forall fuel rs c st ca w lg input,
+  c_first c = None -> accepted_b input = true ->
+  (reset_req c input = false \/ s_path st = []) -> stale st = false ->
+  eng_exec fuel rs c (new_engine c (Some (st, ca)) w lg) input
+  = eng_exec_inner fuel rs c (prep_engine c st ca w lg input).
+Proof.
+  intros fuel rs c st ca w lg input Hf Ha Hreset Hstale.
+  unfold eng_exec, eng_init, new_engine. cbn [e_execd e_initd e_v v_st].
+  rewrite set_input_accepted by exact Ha. cbn [eset_v vset_st e_v v_st].
+  unfold run_first. rewrite Hf. cbn [negb e_v v_st s_code s_path set_input_raw].
+  assert (Hinit :
+    (let '(e4', s4) :=
+       match s_code st, s_path st with
+       | [], _ :: _ =>
+         if getf (set_input_raw st (Some input)) FLAG_TERMINATE
+         then (mkEng (mkVm (set_input_raw st (Some input)) ca (new_vm_page (c_out c) (c_sep c)) w lg false) false [] false false, SOk)
+         else let '(v', s') := eng_reset_inner (e_v (mkEng (mkVm (set_input_raw st (Some input)) ca (new_vm_page (c_out c) (c_sep c)) w lg false) false [] false false)) in
+              (eset_v (mkEng (mkVm (set_input_raw st (Some input)) ca (new_vm_page (c_out c) (c_sep c)) w lg false) false [] false false) v', s')
+       | _, _ => (mkEng (mkVm (set_input_raw st (Some input)) ca (new_vm_page (c_out c) (c_sep c)) w lg false) false [] false false, SOk)
+       end in (e4', s4))
+    = (mkEng (mkVm (set_input_raw st (Some input)) ca (new_vm_page (c_out c) (c_sep c)) w lg false) false [] false false, SOk)).
+  { unfold stale in Hstale. destruct (s_code st); [|reflexivity]. destruct (s_path st); [reflexivity|].
+    change (getf (set_input_raw st (Some input)) FLAG_TERMINATE) with (getf st FLAG_TERMINATE).
+    destruct (getf st FLAG_TERMINATE); [reflexivity|discriminate]. }
+  cbv zeta in Hinit.
+  match goal with |- context [match ?X with (e4', s4) => @?F e4' s4 end] =>
+    match X with context [eng_reset_inner] => replace X with
+      (mkEng (mkVm (set_input_raw st (Some input)) ca (new_vm_page (c_out c) (c_sep c)) w lg false) false [] false false, SOk)
+    end end.
+  2:{ symmetry. etransitivity; [|exact Hinit].
+      destruct (s_code st); [|reflexivity]. destruct (s_path st); [reflexivity|].
+      destruct (getf _ FLAG_TERMINATE); [reflexivity|]. destruct (eng_reset_inner _); reflexivity. }
+  cbn [e_v v_st s_code set_input_raw].
+  assert (Hcode : forall code, code <> [] ->
+     set_code_eng (mkEng (mkVm (set_input_raw st (Some input)) ca (new_vm_page (c_out c) (c_sep c)) w lg false) false [] false false) code
+     = (mkEng (mkVm (set_code (set_input_raw st (Some input)) code) ca (new_vm_page (c_out c) (c_sep c)) w lg false) false [] false false, true)).
+  { intros code Hne. unfold set_code_eng. destruct code; [congruence|reflexivity]. }
+  assert (Hne : encode (IMove (cfg_root c)) <> []).
+  { destruct (encode_move_cons (cfg_root c)) as (a & b & r & E). rewrite E. discriminate. }
+  assert (Hreset' : (if c_reset_empty c && (len input =? 0)
+                     then eng_reset_force c (prep_engine c st ca w lg input)
+                     else (prep_engine c st ca w lg input, SOk)) = (prep_engine c st ca w lg input, SOk)).
+  { destruct Hreset as [Hr|Hp].
+    - unfold reset_req in Hr. rewrite Hr. reflexivity.
+    - destruct (c_reset_empty c && (len input =? 0)); [|reflexivity].
+      unfold eng_reset_force, prep_engine, prep_state. cbn [e_v v_st s_path set_input_raw set_code]. rewrite Hp. reflexivity. }
+  destruct (s_code st) as [|x code] eqn:Hc.
+  - rewrite (Hcode _ Hne). cbn [e_v v_st vset_st e_exit e_exiting e_execd negb].
+    replace (mkEng _ true [] false false) with (prep_engine c st ca w lg input).
+    2:{ unfold prep_engine, prep_state, prep_code. rewrite Hc. destruct st; reflexivity. }
+    rewrite Hreset'. rewrite accepted_valid by exact Ha.
+    rewrite set_input_accepted by exact Ha.
+    replace (eset_v _ _) with (prep_engine c st ca w lg input); [reflexivity|].
+    unfold prep_engine, prep_state, prep_code. rewrite Hc. reflexivity.
+  - cbn [e_v v_st vset_st e_exit e_exiting e_execd negb].
+    replace (mkEng _ true [] false false) with (prep_engine c st ca w lg input).
+    2:{ unfold prep_engine, prep_state, prep_code. rewrite Hc. destruct st; cbn in *; subst; reflexivity. }
+    rewrite Hreset'. rewrite accepted_valid by exact Ha.
+    rewrite set_input_accepted by exact Ha.
+    replace (eset_v _ _) with (prep_engine c st ca w lg input); [reflexivity|].
+    unfold prep_engine, prep_state, prep_code. rewrite Hc. reflexivity.
+Qed.
